@@ -101,5 +101,5 @@ def parallel_session(rng):
                 else:
                     payload += gen.enc_cmd([b"GET", k2])
             items.append("%d:%s" % (c, core.hx(payload)))
-        lines.append("P " + " ".join(items))
+        lines.append("PAR " + " ".join(items))
     return lines
